@@ -164,9 +164,22 @@ def prun(reqs, n, q):
         if got and got[-1].get("outcome") == "timeout":
             rest = rest[k:]
             continue
-        rid = json.loads(rest[k]).get("id")
-        answers.append({"id": rid, "outcome": "fatal", "stdout": "", "panic": vlib.classify_fatal(err),
-                        "pool": n, "queue": q, "hang": False, "events": "", "nev": 0})
+        # the worker died on request k: run it alone (twice at most) before calling it fatal
+        alone = None
+        for _ in range(2):
+            o1, d1, e1 = vlib._run_lines([vlib.ELKH, "prun"], [rest[k]], 90, env)
+            if len(o1) >= 1:
+                try:
+                    alone = json.loads(o1[0])
+                    break
+                except ValueError:
+                    pass
+            err = e1 or err
+        if alone is None:
+            rid = json.loads(rest[k]).get("id")
+            alone = {"id": rid, "outcome": "fatal", "stdout": "", "panic": vlib.classify_fatal(err),
+                     "pool": n, "queue": q, "hang": False, "events": "", "nev": 0}
+        answers.append(alone)
         rest = rest[k + 1:]
         guard += 1
         if guard > 50:
@@ -280,7 +293,11 @@ def judge(ctx, n, q, req, ans, model_ans, stats):
         return "crash", inp, "outcome=%s %s" % (outcome, ans.get("panic", "")), False
     if outcome == "rejected":
         raise RuntimeError("generated program rejected: %s\n%s" % (ans.get("diags"), req["src"]))
+    if model_ans.startswith("rej why=budget"):
+        ctx.stat("replay-inconclusive")     # search budget exhausted: neither validated nor rejected
+        return None
     if not model_ans.startswith("ok "):
+        inp = dict(inp, events=ans.get("events", ""))
         return ("trace-rejected", inp,
                 "the recorded event log is not a behaviour of the model: " + model_ans[:400] +
                 "; the log oracle found no property failure on this run", True)
@@ -414,12 +431,21 @@ def run(ctx):
             if not j:
                 continue
             kind, inp, detail, no_input = j
+            if kind in ("crash", "wrong-result", "residue") and not ctx.replay:
+                # confirm on a fresh worker (a dying worker under load must not become an alarm)
+                again = prun([req], n, q)
+                mod2 = vlib.run_model(["pr\ttrace\t%d\t%d\t%s" % (n, q, again[0].get("events", ""))])[0]
+                j2 = judge(ctx, n, q, req, again[0], mod2, {"validated": 0})
+                if not j2 or j2[0] != kind:
+                    ctx.stat("unconfirmed:" + kind)
+                    continue
             key = (kind, n, q)
             if reported.get(key, 0) >= 1 or sum(1 for k in reported if k[0] == kind) >= 3:
                 ctx.stat("more:" + kind)
                 continue
             reported[key] = 1
-            if kind not in ("trace-rejected",) and not ctx.replay:
+            known = ctx.match_finding({"kind": kind, "input": inp, "detail": detail, "no_input": no_input}) is not None
+            if kind not in ("trace-rejected",) and not ctx.replay and not known:
                 try:
                     small = minimise(ctx, n, q, req, kind)
                     r2 = mkreq("min", small, req["seed"])
